@@ -325,4 +325,68 @@ def insertAll (decls : List ColDecl) : List (List IVal) → List (List IVal)
 def selectAll (e : Engine) (decls : List ColDecl) (rows : List (List IVal)) : List (List IVal) :=
   (insertAll decls rows).map (readRow e decls)
 
+/-! ### The property's side of INSERT: lossless-or-fail conversion, NOT NULL enforced -/
+
+/-- Numeric denotation in tenths (TRUE = 1, FALSE = 0; strings by their integer reading). -/
+def IVal.tenths : IVal → Option Int
+  | .null => none
+  | .bool b => some (if b then 10 else 0)
+  | .int _ x => some (10 * x)
+  | .str s => (parseIntStr s).map (10 * ·)
+  | .dec d => some d
+
+/-- A conversion is lossy when both sides denote numbers and the numbers differ. -/
+def lossy (v v' : IVal) : Bool :=
+  match v.tenths, v'.tenths with
+  | some a, some b => a != b
+  | _, _ => false
+
+/-- What the property demands of one column of one INSERT: NULL only into a nullable column,
+otherwise the converted value if the conversion is lossless, else the statement fails. -/
+def specCol (d : ColDecl) (v : IVal) : KOut IVal :=
+  if v == .null && !d.nullable then .err
+  else match castI d.ty v with
+    | .ok v' => if lossy v v' then .err else .ok v'
+    | .err => .err
+    | .panic => .panic
+
+def specRow : List ColDecl → List IVal → KOut (List IVal)
+  | d :: ds, v :: vs =>
+    match specCol d v with
+    | .ok x => match specRow ds vs with
+      | .ok r => .ok (x :: r)
+      | .err => .err
+      | .panic => .panic
+    | .err => .err
+    | .panic => .panic
+  | [], [] => .ok []
+  | _, _ => .panic
+
+def specTable (decls : List ColDecl) : List (List IVal) → List (List IVal)
+  | [] => []
+  | r :: rs =>
+    match specRow decls r with
+    | .ok row => row :: specTable decls rs
+    | _ => specTable decls rs
+
+def IVal.kind : IVal → String
+  | .null => "null" | .bool _ => "bool" | .int _ _ => "int" | .str _ => "string" | .dec _ => "decimal"
+
+def Ty.kind : Ty → String
+  | .null => "null" | .bool => "bool" | .int _ => "int" | .str => "string"
+
+/-- Reason tags of one column (why the stored / returned value is not what the property says). -/
+def colTags (e : Engine) (d : ColDecl) (v : IVal) : List String :=
+  if v == .null && !d.nullable then
+    [match e with
+      | .mem => "notnull:not-enforced:null-stored"
+      | .disk => "notnull:not-enforced:null-read-as-default"]
+  else match castI d.ty v with
+    | .ok v' => if lossy v v' then ["insert:lossy-cast:" ++ v.kind ++ "->" ++ d.ty.kind] else []
+    | _ => []
+
+def rowTags (e : Engine) : List ColDecl → List IVal → List String
+  | d :: ds, v :: vs => colTags e d v ++ rowTags e ds vs
+  | _, _ => []
+
 end RlModel
